@@ -1,6 +1,7 @@
 import RgVerif.Lemmas.GlobStrat2
 import RgVerif.Lemmas.GlobSetIdx
 import RgVerif.Spec.GlobDoc
+import RgVerif.Lemmas.GlobDocSimple
 /-
 C12 — a glob set answers exactly like its member globs; a glob matches exactly when the documented
 syntax says so.  Only the deciding statements live here; proofs are in `Lemmas/Glob*.lean`.
@@ -133,6 +134,22 @@ example :
     setMatches [⟨⟨false, true, true, false⟩, [.s .recPrefix, .s (.lit 97), .s (.lit 46)]⟩,
                 ⟨⟨false, false, true, false⟩, [.s .star, .s (.lit 46), .s (.lit 97)]⟩,
                 ⟨⟨false, false, true, false⟩, [.s (.lit 97), .s .recSuffix]⟩] [97, 47, 120, 46, 97] = [1, 2] := by
+  decide
+
+/-! ### the documented syntax -/
+
+/-- **C12_doc** (partial, guard `simpleGlob`: literals, `?`, single `*`, `\x` escapes or a literal backslash; all
+four option flags): the glob is accepted, lies in the documented grammar, and its regex matches a path exactly
+when the documented syntax says so — `?` is one byte and `*` any run of bytes, neither crossing `/` under
+`literal_separator`; ASCII case folding under `case_insensitive`; `\x` is `x` under `backslash_escape` and a
+literal backslash otherwise.  For all globs of that grammar and all byte paths. -/
+theorem C12_doc_partial (o : Opts) (g : List Nat) (hg : simpleGlob o.be g = true) (p : Bytes) :
+    ∃ toks, parse o g = .ok toks ∧ GlobDoc.okGlob (docOpts o) g = true ∧
+      tokMatch o toks p = GlobDoc.docMatch (docOpts o) g p :=
+  doc_simple o g hg p
+
+/-- the guard holds for non-trivial globs: `a*.?\*b` and, without escapes, `\a/?*` -/
+example : simpleGlob true [97, 42, 46, 63, 92, 42, 98] = true ∧ simpleGlob false [92, 97, 47, 63, 42] = true := by
   decide
 
 end RgVerif.Props.C12
